@@ -34,6 +34,7 @@ var table = map[string]entry{
 	"C15": {"exploration", checks.C15},
 	"C16": {"exploration", checks.C16},
 	"C17": {"exploration", checks.C17},
+	"C18": {"fault_enumeration", checks.C18},
 	"C19": {"exploration", checks.C19},
 	"C20": {"exploration", checks.C20},
 }
